@@ -26,6 +26,9 @@ RULE = ("inputs: winding ladder (all 49 (ws,wc) pairs, 2 shapes) + random genera
 
 def run(ctx):
     fl = core.tlc_ok(core.tlc("FillLemmas", "FillLemmas.cfg", timeout=120), "FillLemmas"); ctx.add_tlc(fl)
+    # Layer 2: the engine's contribution tables and winding-count rule, transcribed and model-checked against Fill.tla
+    ctab = core.tlc_ok(core.tlc("ContribTable", "ContribTable.cfg", timeout=300), "ContribTable"); ctx.add_tlc(ctab)
+    ctx.extra["contrib_table_rows_checked"] = [o for o in ctab.outs][:1]
     jobs = boolfam.run_jobs(ctx, jobs_for(ctx))
     boolfam.tally(ctx, jobs)
     boolfam.validate(ctx, jobs)
